@@ -254,7 +254,9 @@ def run(mod, check, prop, args, scratch, t0):
             print(f"VIOLATION property={prop} replay={path}")
         return 1
     if agg["inconclusive"]:
-        for m in agg["inconclusive"][:10]:
-            print(f"INCONCLUSIVE property={prop} reason={m[:1500]}")
+        for m in agg["inconclusive"][:3]:
+            print(f"INCONCLUSIVE property={prop} reason={m[:600]}")
+        if len(agg["inconclusive"]) > 3:
+            print(f"  ... and {len(agg['inconclusive']) - 3} more inconclusive notes (see the evidence file)")
         return 2
     return 0
